@@ -117,6 +117,19 @@ def norm_real(j):
              "attrs": {k: val(v) for k, v in n["attrs"].items()}} for n in j]
 
 
+# Rust's Debug rendering of the non-plain characters the pools use (std: `"` `\\` `\n` `\r` `\t` `\0` are backslash escapes, other
+# control characters `\u{hex}`, the apostrophe and printable non-ASCII characters are written as they are)
+ESCAPES = [['"', '\\"'], ["\\", "\\\\"], ["\n", "\\n"], ["\r", "\\r"], ["\t", "\\t"], ["\u0000", "\\0"], ["\u0001", "\\u{1}"],
+           ["'", "'"], ["é", "é"], ["中", "中"], ["ü", "ü"], ["ß", "ß"]]
+
+
+def esc_file(d):
+    path = os.path.join(d, "esc.json")
+    with open(path, "w", encoding="utf-8") as f:
+        json.dump(ESCAPES, f, ensure_ascii=False)
+    return path
+
+
 def pretty_lines(p):
     lines = []
     def attrs(m):
@@ -165,7 +178,7 @@ def run(tier):
     graphs = [rand_graph(r, "g%d" % k) for k in range(n)]
     gpath = os.path.join(d, "graphs.ndjson")
     C.write_ndjson(gpath, graphs)
-    recs, stats, _ = C.tlc("MCJson", "MCJson.cfg", {"GRAPHS": gpath, "TREES": C.sources_json()}, "c14_mc", timeout=3000, mem="8g")
+    recs, stats, _ = C.tlc("MCJson", "MCJson.cfg", {"GRAPHS": gpath, "TREES": C.sources_json(), "ESC": esc_file(d)}, "c14_mc", timeout=3000, mem="8g")
     if not C.tlc_ok(stats):
         raise C.ToolError("MCJson failed: %s" % stats["errors"][:3])
     enc = {e["id"]: e for e in recs.get("ENC", [])}
@@ -214,7 +227,7 @@ def run(tier):
     cov = {"states": stats["distinct"], "transitions": stats["states"], "traces_validated_against_impl": stats2["graphs"],
            "samples": [graphs[3]], "evaluations": len(graphs), "distinct_nontrivial": nontrivial, "rule": RULE, "output": stats2}
     return V.finish("model_checking", cov, ["string escaping inside JSON text is serde_json's; Rust's Debug escaping of strings in the pretty form is "
-                                            "checked only for strings that need no escaping (others: line structure and name only)",
+                                            "checked for the characters of the ESCAPES table (others: line structure and name only)",
                                             "object key order in JSON is ignored (attribute maps are unordered by design)"])
 
 
@@ -225,7 +238,7 @@ def replay(path):
     C.ensure_built()
     gpath = os.path.join(d, "g.ndjson")
     C.write_ndjson(gpath, [rp["graph"]])
-    recs, stats, _ = C.tlc("MCJson", "MCJson.cfg", {"GRAPHS": gpath, "TREES": C.sources_json()}, "c14_replay", timeout=300)
+    recs, stats, _ = C.tlc("MCJson", "MCJson.cfg", {"GRAPHS": gpath, "TREES": C.sources_json(), "ESC": esc_file(d)}, "c14_replay", timeout=300)
     out = os.path.join(d, "r.ndjson")
     C.sh([C.TSGV, "jsonout", C.CORPUS_PY, gpath, out], timeout=60)
     rr = C.read_ndjson(out)[0]["real"]
